@@ -241,7 +241,7 @@ SPEC("pane.classes", "PaneConverter.collect_errors_struct",
                 and forall(range(slen(self.fields)), lambda i: shas(result.missing, sat(self.fields, i).name) == required_missing(self, val, i))
                 and forall_val(lambda n: implies(shas(result.missing, n),
                                                  exists(range(slen(self.fields)), lambda i: sat(self.fields, i).name == n)))),
-               ["C07", "C15"], "tree")],
+               ["C07", "C15", "C08"], "tree")],
      no_raise=["C04", "C14"],
      invariants={
          0: lambda it, values, children, extra, seen, self, val:
